@@ -443,6 +443,9 @@ def run(chk, model_ok):
             if not r.get("source_unchanged", True):
                 chk.fail("property", "getitem-changed-source", f"indexing changed the source array: {c['idx']}",
                          {"input": c, "observed": r})
+            if r.get("ok_again") is False:
+                chk.fail("property", "getitem-result-aliased", f"the array of d[{c['idx']}] changed after the array "
+                         "returned earlier was overwritten in place", {"input": c, "observed": r})
             if c["src"] == "ragged" and "ok" in r and r.get("compressed_after") != "ragged contiguous":
                 chk.fail("property", "getitem-uncompressed-source", "indexing a compressed array uncompressed the source",
                          {"input": c, "observed": r})
